@@ -315,3 +315,34 @@ Proof.
   apply valid_app; [apply valid_app; [|exact Vr] | apply IH; exact Fcs].
   exists [c]. simpl. rewrite Fc, app_nil_r. auto.
 Qed.
+
+(* ---------- contains / starts_with / ends_with: exactly "is a substring / prefix / suffix" ---------- *)
+Lemma is_prefix_iff p s : is_prefix p s = true <-> exists b, s = p ++ b.
+Proof. split; [apply is_prefix_split | intros [b ->]; apply is_prefix_refl_app]. Qed.
+
+Lemma is_suffix_iff p s : is_suffix p s = true <-> exists a, s = a ++ p.
+Proof.
+  unfold is_suffix. rewrite is_prefix_iff. split; intros [x E].
+  - exists (rev x). rewrite <- (rev_involutive s), E, rev_app_distr, rev_involutive. reflexivity.
+  - exists (rev x). rewrite E, rev_app_distr. reflexivity.
+Qed.
+
+Lemma find_from_none_all p : forall s i, find_from p s i = None -> forall a b, s = a ++ b -> is_prefix p b = false.
+Proof.
+  induction s as [|x t IH]; intros i H a b E; apply find_from_none_iff in H as [H1 H2].
+  - destruct a; [|discriminate]. simpl in E. subst b. exact H1.
+  - destruct a as [|y a].
+    + simpl in E. subst b. exact H1.
+    + inversion E; subst. eapply IH; [exact H2 | reflexivity].
+Qed.
+
+Lemma contains_iff s p : op_contains s p = true <-> exists a b, s = a ++ p ++ b.
+Proof.
+  unfold op_contains, find_sub. split.
+  - destruct (find_from p s 0) as [r|] eqn:F; [|discriminate]. intros _.
+    destruct (find_from_some p s 0 r F) as [e [_ [_ Hp]]].
+    apply is_prefix_split in Hp as [b Eb]. exists (take e s), b. rewrite <- Eb.
+    unfold take, drop. symmetry. apply firstn_skipn.
+  - intros [a [b E]]. destruct (find_from p s 0) eqn:F; [reflexivity|].
+    pose proof (find_from_none_all p s 0 F a (p ++ b) E) as N. rewrite is_prefix_refl_app in N. discriminate.
+Qed.
